@@ -103,36 +103,44 @@ def regexText : Ident → Option Str
 
 def wrapNot (misc : Option ModSym) (x : Expr) : Expr := if misc == some .not then .negate x else x
 
+/-- Case-sensitive literal needles: none, one plain search, or one automaton (parser.rs:1418-1456). -/
+def litBlock (ctx : List MatchType) (f : Str) (cast : Bool) : List Expr × Bool :=
+  match ctx with
+  | [] => ([], false)
+  | [c] => ([Expr.search (searchOfMatchType c) f cast], false)
+  | _ => ([Expr.search (.ac ctx false) f cast], true)
+
+/-- Case-insensitive literal needles: always an automaton (parser.rs:1457-1475). -/
+def ilitBlock (ictx : List MatchType) (f : Str) (cast : Bool) : List Expr × Bool :=
+  if ictx.isEmpty then ([], false) else ([Expr.search (.ac ictx true) f cast], true)
+
+/-- Regexes of one case flag: none, one regex, or one regex set (parser.rs:1476-1550). -/
+def rxBlock (rs : List Str) (ci : Bool) (f : Str) (cast : Bool) : List Expr × Bool :=
+  match rs with
+  | [] => ([], false)
+  | [r] => ([Expr.search (.regex r ci) f cast], false)
+  | _ => ([Expr.search (.regexSet rs ci) f cast], true)
+
+def isNonEmptyExact (i : Ident) : Bool := match i.pat with | .exact s => !s.isEmpty | _ => false
+def isEmptyExact (i : Ident) : Bool := match i.pat with | .exact s => s.isEmpty | _ => false
+
 /-- The batching tail of the sequence branch (parser.rs:1382-1551): returns `(group, multiple)`. -/
 def batchMembers (st : SeqSt) (f : Str) : List Expr × Bool :=
   let cast := st.cast
   let order := st.startsWith ++ st.contains ++ st.endsWith
-  let nonEmptyExact := st.exact.filter (fun i => match i.pat with | .exact s => !s.isEmpty | _ => false)
-  let emptyExact := st.exact.filter (fun i => match i.pat with | .exact s => s.isEmpty | _ => false)
+  let nonEmptyExact := st.exact.filter isNonEmptyExact
+  let emptyExact := st.exact.filter isEmptyExact
   let all := order ++ nonEmptyExact
   let ctx := (all.filter (fun i => !i.ci)).filterMap (fun i => matchTypeOf i.pat)
   let ictx := (all.filter (fun i => i.ci)).filterMap (fun i => matchTypeOf i.pat)
   let rs := (st.regex.filter (fun i => !i.ci)).filterMap regexText
   let irs := (st.regex.filter (fun i => i.ci)).filterMap regexText
   let g0 : List Expr := emptyExact.map (fun _ => Expr.search (.exact []) f cast)
-  let (g1, m1) : List Expr × Bool :=
-    match ctx with
-    | [] => ([], false)
-    | [c] => ([Expr.search (searchOfMatchType c) f cast], false)
-    | _ => ([Expr.search (.ac ctx false) f cast], true)
-  let (g2, m2) : List Expr × Bool :=
-    if ictx.isEmpty then ([], false) else ([Expr.search (.ac ictx true) f cast], true)
-  let (g3, m3) : List Expr × Bool :=
-    match rs with
-    | [] => ([], false)
-    | [r] => ([Expr.search (.regex r false) f cast], false)
-    | _ => ([Expr.search (.regexSet rs false) f cast], true)
-  let (g4, m4) : List Expr × Bool :=
-    match irs with
-    | [] => ([], false)
-    | [r] => ([Expr.search (.regex r true) f cast], false)
-    | _ => ([Expr.search (.regexSet irs true) f cast], true)
-  (g0 ++ g1 ++ g2 ++ g3 ++ g4 ++ st.rest, m1 || m2 || m3 || m4)
+  let b1 := litBlock ctx f cast
+  let b2 := ilitBlock ictx f cast
+  let b3 := rxBlock rs false f cast
+  let b4 := rxBlock irs true f cast
+  (g0 ++ b1.1 ++ b2.1 ++ b3.1 ++ b4.1 ++ st.rest, b1.2 || b2.2 || b3.2 || b4.2)
 
 /-- The tail of `parse_mapping` (parser.rs:1602-1607). -/
 def finishMapping : Except Err (List Expr) → Except Err Expr
